@@ -408,7 +408,14 @@ func bundleRun(which string, env *fw.Env, w *gen.World, emptyAllowedOK bool) fw.
 	res.NonTrivial = nt
 	res.Obs = obs
 	limit := 4*c.Events + 20
-	r := runBuild(w, filepath.Join(env.Scratch, "bundle"), buildOpts{Limit: limit})
+	bo := buildOpts{Limit: limit}
+	// in a third of the worlds one or two finder runs also raise a warning
+	// (a warning is not a fault: the build stays fault-free and complete)
+	if h := fw.HashString("warn" + worldKey(w)); which == "C08" && h%3 == 0 && c.Events > 0 {
+		bo.Faults = []fault{{At: 1 + int(h/3)%c.Events, Mode: "warning-if-finder"}, {At: 1 + int(h/7)%c.Events, Mode: "warning-if-finder"}}
+		res.Obs["worlds_with_finder_warnings"] = 1
+	}
+	r := runBuild(w, filepath.Join(env.Scratch, "bundle"), bo)
 	if r.NewErr != nil {
 		return fw.Result{Verdict: fw.Inconclusive, Msg: "harness: " + r.NewErr.Error(), Case: res.Case}
 	}
